@@ -17,7 +17,7 @@ import (
 
 const c07Foreign = "Emoji"
 
-var c07Entries = []string{"registry", "json-top", "json-item", "json-list", "gob-top", "gob-nested"}
+var c07Entries = []string{"registry", "json-top", "json-item", "json-list", "json-list-after-unknown", "gob-top", "gob-nested"}
 
 // marker properties written into the document / value for one vocabulary name
 type c07Markers struct {
@@ -263,6 +263,22 @@ func c07Produce(entry, name string, ti vocab.TypeInfo, known bool) (it ap.Item, 
 			return nil, nil
 		}
 		return tag[1], nil
+	case "json-list-after-unknown":
+		// the same list position, behind a sibling whose type is outside the vocabulary (a Mastodon tag list: Hashtag, then Mention):
+		// what the sibling becomes is its own affair, the member behind it must arrive as it would alone
+		sibling := map[string]interface{}{"type": "Hashtag", "href": "https://example.com/tags/x", "name": "#x"}
+		b, _ := json.Marshal(map[string]interface{}{"id": "https://example.com/outer", "type": "Note", "tag": []interface{}{sibling, doc}})
+		outer, err := ap.UnmarshalJSON(b)
+		if err != nil || outer == nil {
+			return nil, fmt.Errorf("outer document: %v", err)
+		}
+		want := ap.IRI(doc["id"].(string))
+		for _, m := range outer.(*ap.Object).Tag {
+			if !ap.IsNil(m) && m.GetLink() == want {
+				return m, nil
+			}
+		}
+		return nil, nil
 	case "gob-top":
 		b, err := ap.GobEncode(c07Value(name, ti))
 		if err != nil {
@@ -291,7 +307,7 @@ func TestC07(t *testing.T) {
 	r := ev.Open(t, "C07")
 	defer r.Close(t)
 	r.Rule("exhaustive: every vocabulary type name of the ground-truth table (written from the ActivityStreams vocabulary), the generic names, the empty name and three names outside the vocabulary " +
-		"x {registry, JSON top level, JSON nested in an item property, JSON nested in a list, gob top level, gob nested} x {hooks unset, hooks set}. Oracle: concrete Go type == ground truth; decoded id + one " +
+		"x {registry, JSON top level, JSON nested in an item property, JSON nested in a list, the same behind a sibling of a type outside the vocabulary, gob top level, gob nested} x {hooks unset, hooks set}. Oracle: concrete Go type == ground truth; decoded id + one " +
 		"object-core marker + one type-specific marker; family list predicates, IsObject/IsLink/IsCollection and the family's On helper agree with the vocabulary's family; outside the vocabulary without hooks: " +
 		"error, nothing or the untyped *Object fallback; with hooks: identical outcome for vocabulary names. non-trivial = cell with a vocabulary name; distinct by cell")
 	r.Note("only_enumerated_layers", true)
@@ -399,7 +415,7 @@ func TestC07(t *testing.T) {
 							r.Report("cells", cell, key+" foreign-wrong-type", fmt.Sprintf("%s: a name outside the vocabulary produced %T", cell, it), cell)
 						}
 					}
-				} else if entry != "registry" && entry != "json-list" && entry != "json-item" && entry != "json-top" {
+				} else if entry != "registry" && entry != "json-list" && entry != "json-list-after-unknown" && entry != "json-item" && entry != "json-top" {
 					_ = it
 				} else if err != nil || vocab.GoTypeName(it) != "Place" {
 					r.Report("cells", cell, key+" hook-ignored", fmt.Sprintf("%s: the installed hooks handle this name, got %T err=%v", cell, it, err), cell)
